@@ -23,6 +23,11 @@ type MCase struct {
 	// ignored): state kept by a parsed patch between Apply calls would leak
 	// into the judged call.
 	Decoy string `json:"decoy,omitempty"`
+	// NoFinalNL: the rendered patch text is given to gopatch without its final newline.
+	NoFinalNL bool `json:"no_final_newline,omitempty"`
+	// Then, if set, is a second change of the same patch file: it must treat the code the first change
+	// generated like any other code (judged with the sequence model).
+	Then *model.Change `json:"then,omitempty"`
 }
 
 // mverdict is the comparison of the model's prediction with gopatch.
@@ -84,6 +89,9 @@ func hashString(s string) uint32 {
 type toolRunner func(patchText string, c *MCase) (out []byte, err error, rejected string)
 
 func apiRunner(patchText string, c *MCase) ([]byte, error, string) {
+	if c.NoFinalNL {
+		patchText = strings.TrimSuffix(patchText, "\n")
+	}
 	pf, err := patch.Parse("m.patch", []byte(patchText))
 	if err != nil {
 		return nil, nil, "patch rejected: " + firstWords(stripPos(err.Error()), 7)
@@ -103,6 +111,9 @@ func cliRunnerReal(env *core.Env, flags ...string) toolRunner { return cliRunner
 
 func cliRunnerMode(env *core.Env, real bool, flags ...string) toolRunner {
 	return func(patchText string, c *MCase) ([]byte, error, string) {
+		if c.NoFinalNL {
+			patchText = strings.TrimSuffix(patchText, "\n")
+		}
 		sb := newSandbox(env, "mcli", map[string]string{"t/a.go": c.File, "m.patch": patchText})
 		defer sb.remove()
 		args := append([]string{"-p", sb.path("m.patch")}, flags...)
@@ -137,6 +148,16 @@ func judgeModelWith(c *MCase, opts canon.Options, run toolRunner) mverdict {
 		panic(fmt.Sprintf("generator produced an unparseable file: %v\n%s", err, c.File))
 	}
 	out, aerr, rejected := run(v.PatchText, c)
+	if rejected != "" && c.NoFinalNL {
+		// the same text with its final newline is the reference: if that is accepted, the rejection is about the missing newline only
+		c2 := *c
+		c2.NoFinalNL = false
+		if _, _, rej2 := run(v.PatchText, &c2); rej2 == "" {
+			v.Out = core.Outcome{Nontrivial: true, FindingKey: "rejected-without-final-newline",
+				Violation: "the patch is accepted with a final newline but rejected without it: " + rejected + "\n--- patch (final newline removed):\n" + v.PatchText + "--- file:\n" + c.File}
+			return v
+		}
+	}
 	if rejected != "" {
 		v.Out = core.Outcome{Skip: rejected}
 		return v
